@@ -306,7 +306,7 @@ def _gen_reject(w, rng):
         return None
     labs = labs + extra[:1] if rng.random() < 0.6 or len(labs) < 3 else labs[:-1]   # never length 1: that broadcasts
     arr = V.gen_array_spec(rng, dict(w.cfg, mutable_meta=False), dims=[d], labels=[labs], dtype="f8")
-    return {"op": "reject", "kind": kind, "path": path, "name": rng.choice(free), "arr": arr}
+    return {"op": "reject", "kind": kind, "path": path, "name": rng.choice(free), "arr": arr, "mode": rng.choice(["a", "a+"])}
 
 
 def _gen_handle_step(w, rng):
@@ -526,7 +526,7 @@ def x_reject(w, s):
         if d not in fm.dims or fm.dims[d]["labels"] is None or len(fm.dims[d]["labels"]) == len(s["arr"]["labels"][0]) \
                 or len(s["arr"]["labels"][0]) == 1 or fm.dims[d]["unlimited"]:
             raise Skip("stale")
-        call = lambda: a.write_nc(path, name, mode="a")
+        call = lambda: a.write_nc(path, name, mode=s.get("mode", "a"))
     raised = None
     try:
         call()
@@ -543,6 +543,8 @@ def x_reject(w, s):
         if kind == "exclusive_existing" and (FS.files.get(path) is not img_before or img_before.version != ver_before):
             raise Violation("C19", "append_keeps", "refused exclusive create (mode='w-') modified the existing file %s" % path)
     if kind == "size_mismatch":
+        if "C19" in w.props and not FS.exists(path):
+            raise Violation("C19", "append_keeps", "a refused append (mode=%r, size mismatch) removed the existing file %s" % (s.get("mode", "a"), path))
         absorb_unknown(w, path)
     if fm is not None and "C19" in w.props:
         verify_file(w, path, "append_keeps", "C19", "after a refused %s" % kind)
